@@ -10,6 +10,8 @@ namespace Kafka.Model
 structure Codecs where
   gunzip : Bytes → Option Bytes
   unsnap : Bytes → Option Bytes
+  /-- `snap::raw::decompress_len`: the output length a raw snappy block announces (`none`: not readable) -/
+  snapLen : Bytes → Option Nat
 
 abbrev Z (α : Type) := Bytes → Except Err (α × Bytes)
 
@@ -124,6 +126,14 @@ def snappyChunks (unsnap : Bytes → Option Bytes) : Nat → Bytes → Bytes →
         | some d => snappyChunks unsnap fuel (r.drop n.toNat) (acc ++ d)
         | none => .err
 
+/-- `uncompress_to` (compression/snappy.rs) around the block decoder: the announced length is read first; one that the
+    input cannot possibly produce (more than 32 times its size) is refused before anything is reserved; a block that
+    announces nothing contributes nothing - whatever else it holds is not looked at; otherwise the block decoder decides -/
+def uncompressTo (cx : Codecs) (blk : Bytes) : Option Bytes :=
+  match cx.snapLen blk with
+  | none => none
+  | some n => if n > 32 * blk.length then none else if n = 0 then some [] else cx.unsnap blk
+
 /-- result of decoding one message set -/
 inductive SetRes
   | ok (msgs : List Message)
@@ -161,7 +171,7 @@ def fromSlice (cx : Codecs) (debug : Bool) : Nat → Nat → Bytes → Int → B
               match validateStream pm.value with
               | .error e => .error (.err e)
               | .ok s =>
-                match snappyChunks cx.unsnap (s.length + 1) s [] with
+                match snappyChunks (uncompressTo cx) (s.length + 1) s [] with
                 | .err => .error (.err .io)
                 | .panic => .error (.panic "snappy.rs:167 split_at")
                 | .ok v => .ok v
